@@ -167,6 +167,140 @@ def _overridden_mapped_default(desc):
     return False
 
 
+def _class_checks(ctx, case, kind, desc, r, real_ok):
+    """Round 9 (Props/C01Class.lean): the syntactic class `InClass`, the residual `ReturnsDeclared`, and what the theorems say about
+    them, on one driver answer `r` (+ whether the real library answered).  Returns True when a verdict was issued."""
+    if "inClass" not in r:
+        return False
+    in_class, ret_decl, no_int = bool(r["inClass"]), bool(r["returnsDeclared"]), bool(r["noInternal"])
+    request_ok, desc_ok, model_ok = bool(r["requestOK"]), bool(r["descOK"]), bool(r["ok"])
+    if in_class:
+        ctx.count(f"class:{kind}:in:{'plain' if no_int else 'internal-axes'}")
+    else:
+        ctx.count(f"class:{kind}:outside:{','.join(r['classFailed'])}")
+    if desc_ok and not ret_decl:
+        ctx.violation(case, "DescOK holds but ReturnsDeclared does not (contradicts C01_returns_declared_of_desc)", found_input=False,
+                      item="theorem:C01_returns_declared_of_desc", impl=None, model=r)
+        return True
+    if in_class and request_ok:
+        ctx.count(f"class:residual:{kind}:descOK={'yes' if desc_ok else 'no'}")
+        if desc_ok != ret_decl:
+            ctx.violation(case, "inside the class, on a request passing the request checks, DescOK differs from ReturnsDeclared "
+                          "(contradicts C01_desc_residual)", found_input=False, item="theorem:C01_desc_residual", impl=None, model=r)
+            return True
+    if "retSyntactic" in r:
+        ret_syn = bool(r["retSyntactic"])
+        ctx.count(f"class:retSyntactic:{kind}={'yes' if ret_syn else 'no'}")
+        if in_class and request_ok and ret_decl != ret_syn:
+            ctx.violation(case, "inside the class, on a request passing the request checks, ReturnsDeclared differs from the table-free "
+                          "RetSyntactic (contradicts C01_returns_declared_syntactic)", found_input=False,
+                          item="theorem:C01_returns_declared_syntactic", impl=None, model=r)
+            return True
+        if in_class and ret_syn and model_ok != request_ok:
+            ctx.violation(case, "class + RetSyntactic: the model does not answer exactly when RequestOK holds (contradicts C01_never_refused_syntactic)",
+                          found_input=False, item="theorem:C01_never_refused_syntactic", impl=None, model=r)
+            return True
+        if kind in ("generated", "second-stream") and in_class and not ret_syn:
+            ctx.violation(case, "a generated request is in the class but its functions do not return their declared internal shapes (RetSyntactic): "
+                          "the exact-refusal theorem would not apply to it", found_input=False, item="correspondence:class-covers-generated",
+                          impl=None, model=r)
+            return True
+    if in_class and no_int:
+        # C01_never_refused_plain / C01_refused_iff_plain: answered <-> RequestOK, nothing evaluated on the description
+        if model_ok != request_ok:
+            ctx.violation(case, "plain pipeline of the class: the model answers iff RequestOK fails to hold (contradicts C01_never_refused_plain)",
+                          found_input=False, item="theorem:C01_never_refused_plain", impl=None, model=r)
+            return True
+        ctx.count(f"class:plain-exact:{kind}:requestOK={'yes' if request_ok else 'no'}" +
+                  ("" if real_ok is None else f":real={'answers' if real_ok else 'refuses'}"))
+        if real_ok is not None and real_ok != request_ok and kind != "inconsistent-axes":
+            if request_ok:
+                # a clause of the property: the request is valid (Conforms follows, by the theorem) and the real library refuses it
+                return False        # judged below as `valid request (Conforms) refused`
+            ctx.violation(case, f"plain pipeline of the class: the real library answers a request that fails a request check ({r['failed']})",
+                          found_input=False, item="correspondence:exact-refusal-plain", impl={"ok": True}, model=r)
+            return True
+    if "checkedOk" in r:
+        # Model/MapChecked.lean: `Pipeline.map` = prepare_run (input + axes checks) + run_map
+        checked = bool(r["checkedOk"])
+        if checked != (model_ok and "consistentAxes" not in r["classFailed"]):
+            ctx.violation(case, "mapChecked does not answer exactly when runMap answers and the axes are consistent (contradicts C01_checked_iff)",
+                          found_input=False, item="theorem:C01_checked_iff", impl=None, model=r)
+            return True
+        others = [c for c in r["classFailed"] if c != "consistentAxes"]
+        if real_ok is not None and not others and (ret_decl or not request_ok):
+            # C01_checked_never_refused_class + C01_checked_refuses_inconsistent: inside the class (axes aside) with functions that return what
+            # they declare, prepare_run + run_map answers iff the five request checks pass and every array has one axis naming
+            ctx.count(f"class:checked:{kind}:model={'answers' if checked else 'refuses'}:real={'answers' if real_ok else 'refuses'}")
+            if checked != (request_ok and "consistentAxes" not in r["classFailed"]):
+                ctx.violation(case, "mapChecked is not RequestOK && consistentAxes inside the class (contradicts C01_checked_never_refused_class)",
+                              found_input=False, item="theorem:C01_checked_never_refused_class", impl=None, model=r)
+                return True
+            if real_ok and not checked:
+                ctx.violation(case, f"the real library answers a request that prepare_run + run_map refuse in the model (fails {r['failed']})",
+                              found_input=False, item="correspondence:checked-refusal", impl={"ok": True}, model=r)
+                return True
+            # checked and not real_ok: the request conforms; judged by the caller as `valid request (Conforms) refused`
+    if kind in ("generated", "second-stream") and not in_class:
+        if r["classFailed"] == ["mappedDefaultsAgree"] and _overridden_mapped_default(desc):
+            ctx.count("class:outside (overridden default of a mapped root has another shape)")
+            return False
+        ctx.violation(case, f"a generated request lies outside the class the theorems of Props/C01Class.lean cover (fails {r['classFailed']})",
+                      found_input=False, item="correspondence:class-covers-generated", impl=None, model=r)
+        return True
+    return False
+
+
+def class_coverage(ctx, descs):
+    """Second-stream requests (templates, decorated mapgen cases): are they inside `InClass`, and do the theorem's consequences hold
+    on them?  No real run here (the stream's own judge does that); one driver batch."""
+    if not descs:
+        return
+    outs = ctx.lean([{"m": "conforms", "a": mapgen.model_request(d)} for d in descs], driver=DRIVER)
+    for desc, resp in zip(descs, outs):
+        r = resp["r"]
+        if desc.get("output_names") is not None:
+            # the inputs are restricted to what S needs: RequestOK of the WHOLE pipeline may fail; the class does not depend on it
+            ctx.count(f"class:output_names:{'in' if r['inClass'] else 'outside:' + ','.join(r['classFailed'])}")
+            if not r["inClass"] and not (r["classFailed"] == ["mappedDefaultsAgree"] and _overridden_mapped_default(desc)):
+                ctx.violation({"desc": desc, "storage": "dict"}, f"a generated request lies outside the class (fails {r['classFailed']})",
+                              found_input=False, item="correspondence:class-covers-generated", impl=None, model=r)
+            continue
+        _class_checks(ctx, {"desc": desc, "storage": "dict", "mutation": "second-stream"}, "second-stream", desc, r, None)
+
+
+def _witness(name, spec, xshape, defaults=None, supplied=None):
+    ms = {"inputs": [["x0", spec]], "outputs": [["y0", [a for a in dict.fromkeys(spec) if a]]]}
+    n = 1
+    for q in xshape:
+        n *= q
+    el = lambda tag, shape, cnt: {"arr": [list(shape), [{"f": tag, "k": [["n", {"s": "x0"}], ["at", {"arr": [[1], [q]]}]]} for q in range(cnt)]]}  # noqa: E731
+    return {"funcs": [{"name": name, "params": [["x0", "x0"]], "outputs": ["y0"], "mapspec": ms, "mapspec_str": mapgen.spec_str(ms), "autogen": False,
+                       "ret": None, "internal": None, "defaults": defaults or [], "bound": []}],
+            "inputs": [["x0", el("in", xshape, n)]], "input_kinds": {"x0": "array"}, "internal": [], "sizes": {"i": 2, "j": 1, "k": 1}}
+
+
+def class_witnesses(ctx):
+    """The decide-witnesses at the boundary of the class (Props/C01Class.lean, `Boundary of the class (1)`) replayed on the real code:
+    `x[i, i] -> y[i]` on a 2x3 array (answered with the diagonal by model and code, RequestOK, not DescOK, outside the class) and on a
+    3x2 array (RequestOK, refused at run time by both).  Accept/refuse and the flags are compared; a difference is a broken tie."""
+    ws = [("diag23", _witness("fdiag", ["i", "i"], [2, 3]), True), ("diag32", _witness("fdiag", ["i", "i"], [3, 2]), False),
+          ("diag22", _witness("fdiag", ["i", "i"], [2, 2]), True)]
+    outs = ctx.lean([{"m": "conforms", "a": mapgen.model_request(d)} for _, d, _ in ws], driver=DRIVER)
+    for (tag, desc, expect_ok), resp in zip(ws, outs):
+        r = resp["r"]
+        ok, err, where = run_real(desc)
+        ctx.count(f"class:witness:{tag}:model={'answers' if r['ok'] else 'refuses'}:real={'answers' if ok else 'refuses'}")
+        case = {"desc": desc, "storage": "dict", "mutation": "witness:" + tag}
+        if r["inClass"] or not r["requestOK"] or r["classFailed"] != ["funcStatic"] or bool(r["ok"]) != expect_ok:
+            ctx.violation(case, f"class-boundary witness {tag}: the driver no longer gives the flags the decide-example states", found_input=False,
+                          item="theorem:C01Class-boundary-witness", impl=None, model=r)
+        elif ok != bool(r["ok"]):
+            ctx.violation(case, f"class-boundary witness {tag}: model {'answers' if r['ok'] else 'refuses'}, real library "
+                          f"{'answers' if ok else 'refuses (' + str(err) + ' at ' + str(where) + ')'}", found_input=False,
+                          item="correspondence:class-boundary", impl={"ok": ok, "err": err}, model=r)
+
+
 def cross_check(ctx, descs, mutations=MUTATIONS, mutants_per_case=None):
     """`descs`: mapgen descriptions (generated, i.e. valid by construction).  One driver batch, one real run per request."""
     rng = ctx.rng
@@ -200,6 +334,8 @@ def cross_check(ctx, descs, mutations=MUTATIONS, mutants_per_case=None):
                 ctx.count(f"total:{kind}:not-conforming:model-{'answers' if model_ok else 'refuses'}-real-{'answers' if ok else 'refuses'}")
         ctx.count(f"exact:{kind}:requestOK={'yes' if request_ok else 'no'}:descOK={'yes' if desc_ok else 'no'}:"
                   f"model={'answers' if model_ok else 'refuses'}:real={'answers' if ok else 'refuses'}")
+        if _class_checks(ctx, case, kind, desc, r, ok):
+            continue
         if conforms != (request_ok and desc_ok):
             ctx.violation(case, "Conforms is not RequestOK && DescOK (contradicts C01_conforms_split)", found_input=False,
                           item="theorem:C01_conforms_split", impl=None, model=r)
